@@ -2,10 +2,54 @@
    Only property theorems live here: each is closed by [exact], pinned by
    [Check ... : statement] and followed by [Print Assumptions]. *)
 From Coq Require Import List NArith Permutation.
-From Echo Require Import Base.FinMap Base.Bytes Model.Root Proofs.RootProofs.
+From Echo Require Import Base.FinMap Base.Bytes Model.Root Proofs.RootProofs Proofs.RootProofs2.
 Import ListNotations.
 Open Scope N_scope.
 
+(* collect_reachable_graph (queue, visiting order, fuel) computes exactly the inductive
+   reachability relation: sound, complete, and the fuel never runs out. *)
+Theorem reach_bfs_sound_complete : forall s r,
+  exists rn rw, reach s r = (rn, rw) /\
+    sorted nkey_cmp rn /\ sorted N.compare rw /\
+    (forall k, nmem k rn = true <-> Reach s r k) /\
+    (forall w, wmem w rw = true <-> ReachW s r w).
+Proof. exact reach_spec. Qed.
+Check reach_bfs_sound_complete : forall s r,
+  exists rn rw, reach s r = (rn, rw) /\
+    sorted nkey_cmp rn /\ sorted N.compare rw /\
+    (forall k, nmem k rn = true <-> Reach s r k) /\
+    (forall w, wmem w rw = true <-> ReachW s r w).
+Print Assumptions reach_bfs_sound_complete.
+
+(* The preimage depends on the state only through its reachable content ... *)
+Theorem root_layout_free : forall s1 s2 r,
+  reach_content s1 r = reach_content s2 r -> root_preimage s1 r = root_preimage s2 r.
+Proof. exact root_layout_free_w. Qed.
+Check root_layout_free : forall s1 s2 r,
+  reach_content s1 r = reach_content s2 r -> root_preimage s1 r = root_preimage s2 r.
+Print Assumptions root_layout_free.
+
+(* ... and the reachable content does not depend on bucket insertion order, nor on anything
+   unreachable (nodes, edges, attachments, instances): two well-formed states that agree at every
+   key reachable in the first have the same content and the same preimage. *)
+Theorem root_layout_free_sem : forall s1 s2 r,
+  wf_state s1 = true -> wf_state s2 = true -> agree_on_reachable s1 s2 r ->
+  reach_content s1 r = reach_content s2 r /\ root_preimage s1 r = root_preimage s2 r.
+Proof.
+  exact (fun s1 s2 r W1 W2 HA =>
+    conj (reach_content_layout_free_w s1 s2 r W1 W2 HA) (root_layout_free_sem_w s1 s2 r W1 W2 HA)).
+Qed.
+Check root_layout_free_sem : forall s1 s2 r,
+  wf_state s1 = true -> wf_state s2 = true -> agree_on_reachable s1 s2 r ->
+  reach_content s1 r = reach_content s2 r /\ root_preimage s1 r = root_preimage s2 r.
+Print Assumptions root_layout_free_sem.
+
+(* FULL statement (false of the code as it is, DESIGN F3):
+     root_injective : forall H s1 r1 s2 r2, state_root H s1 r1 = state_root H s2 r2 ->
+                        reach_content s1 r1 = reach_content s2 r2 \/ Collision H.
+   The preimage carries no node / bucket / instance counts, so it is not uniquely decodable:
+   f3_a (one node record with a 31-byte atom) and f3_b (no node record, one edge bucket) have the
+   same preimage, hence the same root under every hash function. *)
 Theorem root_injective_refuted :
   exists s1 s2 r, root_preimage s1 r = root_preimage s2 r /\ reach_content s1 r <> reach_content s2 r.
 Proof. exact root_injective_refuted_w. Qed.
@@ -13,9 +57,74 @@ Check root_injective_refuted :
   exists s1 s2 r, root_preimage s1 r = root_preimage s2 r /\ reach_content s1 r <> reach_content s2 r.
 Print Assumptions root_injective_refuted.
 
+(* What does hold: with the section counts (skeleton) equal, equal roots mean equal content
+   (root key, every node type, edge id/type/target, attachment tag/type/length/bytes, instance
+   root/parent) or a hash collision.  Missing for the full statement: the counts themselves. *)
+Theorem root_injective_same_skeleton_partial : forall (H : bytes -> N) s1 s2 r1 r2,
+  content_ok (reach_content s1 r1) -> content_ok (reach_content s2 r2) ->
+  skeleton (reach_content s1 r1) = skeleton (reach_content s2 r2) ->
+  state_root H s1 r1 = state_root H s2 r2 ->
+  reach_content s1 r1 = reach_content s2 r2 \/ Collision H.
+Proof. exact state_root_same_skeleton_w. Qed.
+Check root_injective_same_skeleton_partial : forall (H : bytes -> N) s1 s2 r1 r2,
+  content_ok (reach_content s1 r1) -> content_ok (reach_content s2 r2) ->
+  skeleton (reach_content s1 r1) = skeleton (reach_content s2 r2) ->
+  state_root H s1 r1 = state_root H s2 r2 ->
+  reach_content s1 r1 = reach_content s2 r2 \/ Collision H.
+Print Assumptions root_injective_same_skeleton_partial.
+
+(* Every single mutation of the reachable content changes the preimage: any in-place change
+   (skeleton kept: a field, an attachment, an edge added to / removed from an existing bucket),
+   and adding or removing one node record, one bucket or one instance section.  Partial: a state
+   edit that changes reachability may amount to several such steps at once (explored on the
+   implementation by the mutation oracle instead). *)
+Theorem root_single_mutation_partial : forall c1 c2,
+  content_ok c1 -> content_ok c2 -> content_mut c1 c2 ->
+  enc_content c1 <> enc_content c2 /\ enc_content c2 <> enc_content c1.
+Proof. exact content_mut_changes_preimage. Qed.
+Check root_single_mutation_partial : forall c1 c2,
+  content_ok c1 -> content_ok c2 -> content_mut c1 c2 ->
+  enc_content c1 <> enc_content c2 /\ enc_content c2 <> enc_content c1.
+Print Assumptions root_single_mutation_partial.
+
+(* root_preimage really is the encoding of the content the two theorems above talk about *)
+Theorem root_preimage_is_content_encoding : forall s r,
+  root_preimage s r = enc_content (reach_content s r).
+Proof. exact root_preimage_factor. Qed.
+Check root_preimage_is_content_encoding : forall s r,
+  root_preimage s r = enc_content (reach_content s r).
+Print Assumptions root_preimage_is_content_encoding.
+
+(* FULL statement (false of the code as it is, DESIGN F2):
+     acc_agrees : forall s r, acc_root_preimage (from_state s) r = root_preimage s r. *)
 Theorem acc_agrees_refuted :
   exists s r, acc_root_preimage (from_state s) r <> root_preimage s r.
 Proof. exact acc_agrees_refuted_w. Qed.
 Check acc_agrees_refuted :
   exists s r, acc_root_preimage (from_state s) r <> root_preimage s r.
 Print Assumptions acc_agrees_refuted.
+
+(* Non-vacuity. ex_s1 / ex_s2: two instances linked by a portal on an edge slot; ex_s2 is built in
+   another order and carries an unreachable node with an edge into the reachable part, orphan
+   attachments and an unreferenced instance.  They are different, well-formed states that meet the
+   hypotheses of the layout theorems; their content meets [content_ok]; a concrete in-place
+   mutation meets [content_mut]. *)
+Example c06_nonvacuous :
+  ex_s1 <> ex_s2 /\ wf_state ex_s1 = true /\ wf_state ex_s2 = true /\
+  agree_on_reachable ex_s1 ex_s2 ex_root /\
+  reach_content ex_s1 ex_root = reach_content ex_s2 ex_root /\
+  skeleton (reach_content ex_s1 ex_root) = [(2%nat, 1%nat); (1%nat, 0%nat)] /\
+  fst (reach ex_s1 ex_root) = [((1, 10), tt); ((1, 11), tt); ((2, 30), tt)] /\
+  content_ok (reach_content ex_s1 ex_root) /\
+  content_mut (reach_content ex_s1 ex_root)
+              (reach_content (apply_sop ex_s1 (SNode 1 11 7)) ex_root).
+Proof.
+  split; [vm_compute; discriminate|].
+  split; [vm_compute; reflexivity|]. split; [vm_compute; reflexivity|].
+  split; [exact ex_agree|].
+  split; [vm_compute; reflexivity|]. split; [vm_compute; reflexivity|].
+  split; [vm_compute; reflexivity|].
+  split.
+  - apply content_okb_ok. vm_compute. reflexivity.
+  - apply CM_inplace; vm_compute; [reflexivity|discriminate].
+Qed.
